@@ -1307,6 +1307,13 @@ int32_t jls_core_repair_fsr(struct jls_core_s * self, uint16_t signal_id) {
         if (jls_raw_chunk_seek(self->raw, offset) || jls_core_rd_chunk(self)) {
             break;
         }
+        size_t sample_buffer_sz = sizeof(struct jls_payload_header_s) + (((size_t) signal_info->signal_def.samples_per_data)
+                * jls_datatype_parse_size(signal_info->signal_def.data_type)) / 8;
+        if ((self->chunk_cur.hdr.tag != JLS_TAG_TRACK_FSR_DATA) || (self->buf->length > sample_buffer_sz)
+                || (self->buf->length < sizeof(struct jls_payload_header_s))) {
+            JLS_LOGW("repair_fsr signal_id %d: not a data chunk at %" PRIi64, (int) signal_id, offset);
+            break;  // does not fit the sample buffer: cannot be a data chunk of this signal
+        }
         memcpy(signal_info->track_fsr->data, self->buf->start, self->buf->length);
         JLS_LOGI("repair_fsr signal_id %d, level %d, offset %" PRIi64 " sample_id %" PRIi64 " to %" PRIi64 " data[0]=%f",
                  (int) signal_id, (int) level, offset,
